@@ -153,6 +153,9 @@ func solveRace(dir, base, script string, timeoutS int, unanimous bool) (status, 
 	return st, "", model, ms
 }
 
+// fullInstantiation disables the goal-directed selection of instances (retry pass).
+var fullInstantiation = false
+
 // Discharge runs all obligations in parallel.
 func Discharge(obls []*Oblig, dir string, timeoutS int, par int, unanimous bool) []*SolveResult {
 	res := make([]*SolveResult, len(obls))
@@ -174,9 +177,16 @@ func Discharge(obls []*Oblig, dir string, timeoutS int, par int, unanimous bool)
 			continue
 		}
 		if o.kind != "cover" {
-			for k, dj := range o.disj {
+			if o.raw == nil {
+				o.raw = append([]*Term{}, o.disj...)
+			}
+			for k, dj := range o.raw {
 				if containsQuant(dj) {
-					o.disj[k] = instantiateQuery(dj)
+					var neg *Term
+					if k < len(o.negs) && !fullInstantiation {
+						neg = o.negs[k]
+					}
+					o.disj[k] = instantiateQuery(dj, neg)
 				}
 			}
 		}
